@@ -374,6 +374,44 @@ def r8_single_parent(idx, r):
                   msg=f"{meth}() accepts an object that still has another parent: afterwards the old parent lists it but is not its parent")
 
 
+def r9_paired_query_args(idx, r):
+    """`exact` qualifies how `typeSpec` is matched. Inside a query that takes both, every call that hands the
+    caller's typeSpec on to another query (any armi function that itself takes `exact`) must hand `exact` on too -
+    also inside lambdas and comprehensions - or the qualifier is silently dropped on that path."""
+    TYPES = ("typeSpec", "blockType")
+    with_exact = set()
+    for m in idx.modules.values():
+        if m.name.startswith("armi.") and ".tests" not in m.name:
+            for f in m.all_funcs():
+                if "exact" in f.params():
+                    with_exact.add(f.name)
+    n = 0
+    for m in idx.modules.values():
+        if not m.name.startswith("armi.reactor") or ".tests" in m.name:
+            continue
+        for f in m.all_funcs():
+            ps = f.params()
+            T = [p for p in ps if p in TYPES]
+            if "exact" not in ps or not T:
+                continue
+            for c in ast.walk(f.node):
+                if not isinstance(c, ast.Call):
+                    continue
+                callee = c.func.attr if isinstance(c.func, ast.Attribute) else (c.func.id if isinstance(c.func, ast.Name) else None)
+                if callee not in with_exact:
+                    continue
+                args = list(c.args) + [k.value for k in c.keywords]
+                names = {a.id for a in args if isinstance(a, ast.Name)}
+                if not names & set(T):
+                    continue
+                n += 1
+                r.require("exact" in names, f"{f.qualname}:{norm(c)[:60]}", f, node=c,
+                          msg=f"`{norm(c)[:70]}` passes on `{sorted(names & set(T))[0]}` without `exact`: on this path exact=True is ignored and objects "
+                              "whose flags are a superset of the spec are returned too")
+    if n < 12:
+        raise AnalysisError(f"only {n} typeSpec-forwarding calls found")
+
+
 def run(idx, chk):
     chk.explanation = (
         "C01: who may write Composite._children / .parent (frozen owners), pairing of parent/list/locator effects on every path of "
@@ -398,3 +436,5 @@ def run(idx, chk):
                  necessary="with value equality `in`/remove/index would act on an equal sibling")
     chk.run_rule("R01.8", "add/insert refuse (or detach) an object that still has another parent", lambda r: r8_single_parent(idx, r), floor=2,
                  necessary="'every object has at most one parent'")
+    chk.run_rule("R01.9", "a query that takes typeSpec and exact hands both on together, on every path (lambdas included)", lambda r: r9_paired_query_args(idx, r), floor=12,
+                 necessary="queries by flags return exactly the objects a naive walk with the same arguments returns")
